@@ -247,6 +247,23 @@ fn breadth(ctx: &Ctx, devs: Vec<Act>, thorough: bool) -> Vec<LifeCfg> {
         for h in ALL_HASHES {
             v.push(cfg(ctx, h, vec![hw(2, 1), hw(5, 8)], 0, None, 0, devs.clone()));
         }
+        // every Winternitz triple on three 4-leaf levels (whole lifetime), and every pair on every hash
+        for w0 in [1u32, 2, 4, 8] {
+            for w1 in [1u32, 2, 4, 8] {
+                for w2 in [1u32, 2, 4, 8] {
+                    v.push(cfg(ctx, Hid::S16, vec![hw(2, w0), hw(2, w1), hw(2, w2)], 0, None, 0, vec![]));
+                }
+                for h in ALL_HASHES {
+                    if w0 != w1 {
+                        v.push(cfg(ctx, h, vec![hw(2, w0), hw(2, w1)], 0, None, 0, vec![]));
+                    }
+                }
+            }
+        }
+        // a 32768-leaf tree (first two and last two signatures): index arithmetic beyond 2^10
+        v.push(cfg(ctx, Hid::S16, vec![hw(15, 8)], 0, Some(2), 0, vec![]));
+        v.push(cfg(ctx, Hid::S16, vec![hw(15, 8)], 32766, None, 0, vec![]));
+        v.push(cfg(ctx, Hid::S16, vec![hw(2, 8), hw(15, 8)], 32767, Some(2), 0, vec![]));
     }
     v
 }
@@ -258,7 +275,7 @@ pub fn run_c01(ctx: &Ctx) -> (&'static str, Map<String, Value>) {
     let cfgs = breadth(ctx, devs, ctx.tier.thorough());
     let (agg, labels) = run_lattice(ctx, cfgs);
     ctx.assume("seeds and message bytes are parameters of the run (VERIF_SEED); lengths, block edges, counters and parameter shapes are enumerated");
-    ctx.assume("tree heights >= 15 are never instantiated (infeasible); h=10 only in the thorough tier");
+    ctx.assume("tree heights 20 and 25 are never instantiated (infeasible); h=10 windows in the quick tier, one h=15 tree (first/last signatures) in the thorough tier only");
     ("model_checking", coverage(ctx, &agg, &labels, RULE, true))
 }
 
@@ -334,6 +351,12 @@ pub fn run_c03(ctx: &Ctx) -> (&'static str, Map<String, Value>) {
         cfgs.push(cfg(ctx, Hid::S16, vec![hw(2, 4), hw(2, 4), hw(2, 4)], 0, None, 2, devs[..4].to_vec()));
         cfgs.push(cfg(ctx, Hid::S16, vec![hw(2, 4), hw(2, 4), hw(2, 4), hw(2, 4)], 0, None, 1, devs[..3].to_vec()));
         cfgs.push(cfg(ctx, Hid::S32, vec![hw(5, 4), hw(5, 4)], 0, None, 0, vec![]));
+        // the complete lifetime of an 8-level key (65536 signatures) as 64 contiguous windows; the
+        // successor of the last state of a window is the crafted first state of the next one
+        let p8: Vec<Param> = (0..8).map(|_| hw(2, 4)).collect();
+        for k in 0..64u64 {
+            cfgs.push(cfg(ctx, Hid::S16, p8.clone(), k * 1024, if k == 63 { None } else { Some(1024) }, 0, vec![]));
+        }
         for l in 5..=8usize {
             let params: Vec<Param> = (0..l).map(|_| hw(2, 4)).collect();
             for (s, ms) in windows(&params, 2) {
@@ -470,6 +493,11 @@ pub fn c05_life_cfgs(ctx: &Ctx) -> Vec<LifeCfg> {
     if th {
         for h in ALL_HASHES {
             cfgs.push(cfg(ctx, h, vec![hw(5, 4), hw(5, 4)], 0, None, 0, vec![]));
+        }
+        // the complete lifetime of an 8-level key (65536 signatures) as 64 contiguous windows
+        let p8: Vec<Param> = (0..8).map(|_| hw(2, 4)).collect();
+        for k in 0..64u64 {
+            cfgs.push(cfg(ctx, Hid::S16, p8.clone(), k * 1024, if k == 63 { None } else { Some(1024) }, 0, vec![]));
         }
         for params in [vec![hw(10, 8)], vec![hw(10, 8), hw(5, 8)], vec![hw(5, 8), hw(10, 8)], vec![hw(5, 4), hw(5, 4), hw(5, 4)]] {
             for (s, ms) in windows(&params, 2) {
